@@ -48,6 +48,13 @@ func register(p *Property) {
 
 func all(patterns ...string) []ConfigLoad { return []ConfigLoad{{"default", patterns}} }
 
+// allAndLegacy: the whole module in the default configuration plus the given
+// packages with the protolegacy build tag (MessageSet support, legacy UTF-8
+// enforcement), where different code is compiled.
+func allAndLegacy(patterns ...string) []ConfigLoad {
+	return []ConfigLoad{{"default", []string{"./..."}}, {"legacy", patterns}}
+}
+
 func main() {
 	repo := flag.String("repo", "/repo", "repository root")
 	verif := flag.String("verif", "/verif", "verification directory (evidence, known findings)")
@@ -120,6 +127,9 @@ func main() {
 	loads := p.Quick
 	if *tier == "thorough" && p.Thorough != nil {
 		loads = p.Thorough
+	}
+	if fc := os.Getenv("VERIF_FORCE_CONFIG"); fc != "" { // development aid: run the property's rules in another build configuration
+		loads = []ConfigLoad{{fc, []string{"./..."}}}
 	}
 	for _, cl := range loads {
 		r.curConfig = cl.Config
